@@ -171,8 +171,7 @@ def run_config(cfg):
         if r is None or P.ATOMS.kind[r] != 'sqrt' or not (v0 > 0):
             fin_bad.append('reciprocal of %s (value at the all-zero image: %r)' % ('a sqrt atom' if r is not None else 'a general expression', v0))
     lin = [a for a in range(len(P.ATOMS)) if P.ATOMS.kind[a] == 'lin']
-    for _ in range(3):          # lin atoms over sqrt atoms over lin atoms ...: iterate to a fixpoint
-        solver.auto_bounds(lin); solver.auto_bounds(sq, floor=bF)
+    solver.auto_bounds(sq, floor=bF); solver.auto_bounds(lin)
     solver.auto_bounds([a for a in range(len(P.ATOMS)) if P.ATOMS.kind[a] == 'inv'])
     if fin_bad:
         z = rt.zeros(*shape, dtype=rt.float64, requires_grad=True)
